@@ -4,6 +4,7 @@ import (
 	"encoding/json"
 	"fmt"
 	"os"
+	"path/filepath"
 	"sort"
 	"strconv"
 	"strings"
@@ -182,7 +183,7 @@ func renameSpec(sp *simSpec, idx int, base int) {
 	sp.Wf = fmt.Sprintf("w%d", idx)
 	k := 0
 	keyed := map[string]classSpec{} // the first role with a key (prelude first) defines the class
-	if sp.Prelude != nil {
+	if sp.Prelude != nil && !sp.Reload { // a reload brings its own version under the same name
 		keyedClasses(sp.Prelude.Tree, keyed)
 	}
 	keyedClasses(sp.Tree, keyed)
@@ -227,6 +228,9 @@ func childMain(specFile, resFile, simDir string) {
 	wfs, classes := map[string]string{}, map[string]string{}
 	for _, sp := range specs {
 		wfs[sp.Wf] = sp.Yaml
+		if sp.Reload {
+			continue // its template files are written when its turn comes
+		}
 		for n, y := range sp.Classes {
 			classes[n] = y
 		}
@@ -253,11 +257,22 @@ func childMain(specFile, resFile, simDir string) {
 	// loading re-reads the task classes, which would wipe whatever an earlier round left in them
 	pre := make([]preloaded, len(specs))
 	for i, sp := range specs {
-		if sp.Mode != "nodesc" {
+		if sp.Mode != "nodesc" && !sp.Reload {
 			pre[i] = preload(sim, sp)
 		}
 	}
 	for i, sp := range specs {
+		if sp.Reload {
+			// the templates change on disk, then the workflow is loaded: the classes are re-read
+			// and handed to the class cache under the identifiers they already have
+			for n, y := range sp.Classes {
+				if err := os.WriteFile(filepath.Join(sim.RepoDir, "tasks", n+".yaml"), []byte(y), 0o644); err != nil {
+					fmt.Fprintln(os.Stderr, err)
+					os.Exit(3)
+				}
+			}
+			pre[i] = preload(sim, sp)
+		}
 		ob := runSpec(sim, sp, pre[i], func(pre simObs) { emit(true, pre) })
 		emit(false, ob)
 	}
